@@ -41,8 +41,8 @@ def build_hooked():
         if r.returncode != 0:
             raise CheckError("hooked Transformer.cpp does not compile:\n" + r.stdout[-2000:])
         link = [c for c in ninja_commands("src/souffle") if " -o src/souffle " in c][-1]
-        # the link command may be wrapped in ': && ... && :'
-        link = link.replace(": && ", "").replace(" && :", "")
+        # the link rule is a chain ': && <link> && <post-build copies> && :' - keep the link step only
+        link = [seg for seg in link.split(" && ") if " -o src/souffle " in (" " + seg + " ")][0]
         lp = shlex.split(link)
         new = []
         i = 0
